@@ -36,6 +36,7 @@ const (
 	fkSelfNone
 	fkChildTarget
 	fkIdxExtChildTarget
+	fkSelfIdxCascade
 )
 
 var fkWiringNames = map[fkWiring]string{
@@ -51,18 +52,21 @@ var fkWiringNames = map[fkWiring]string{
 	fkSelfNone:          "self-referential fk-constraint cascade-none (restrict)",
 	fkChildTarget:       "fk-constraint (restrict) whose target is a child store of the referring store",
 	fkIdxExtChildTarget: "fk-index nullable (restrict) whose target is an EXTENDED child store of the referring store",
+	fkSelfIdxCascade:    "self-referential fk-index cascade-delete",
 }
 
 func (w fkWiring) hasIndex() bool {
-	return w == fkIdxNullable || w == fkIdxNonNull || w == fkIdxCascade || w == fkSelfIdxNullable || w == fkIdxExtChildTarget
+	return w == fkIdxNullable || w == fkIdxNonNull || w == fkIdxCascade || w == fkSelfIdxNullable || w == fkIdxExtChildTarget || w == fkSelfIdxCascade
 }
 func (w fkWiring) nullable() bool {
 	return w == fkIdxNullable || w == fkcNoneNullable || w == fkcCascadeNullable || w == fkSelfIdxNullable || w == fkSelfCascade || w == fkSelfNone || w == fkChildTarget || w == fkIdxExtChildTarget
 }
 func (w fkWiring) cascade() bool {
-	return w == fkIdxCascade || w == fkcCascadeNullable || w == fkcCascadeNonNull || w == fkSelfCascade
+	return w == fkIdxCascade || w == fkcCascadeNullable || w == fkcCascadeNonNull || w == fkSelfCascade || w == fkSelfIdxCascade
 }
-func (w fkWiring) self() bool { return w == fkSelfIdxNullable || w == fkSelfCascade || w == fkSelfNone }
+func (w fkWiring) self() bool {
+	return w == fkSelfIdxNullable || w == fkSelfCascade || w == fkSelfNone || w == fkSelfIdxCascade
+}
 
 // childTarget: the referenced store is a plain child store of the referring store - a target exists only if the
 // entity has child data there (an entity of the parent store alone is not a valid target, not even for itself).
@@ -173,7 +177,7 @@ func newFkScenario(w fkWiring, ownerIds, widgetIds []string, label string) *fkSc
 		sc.widgets.AddNullableFkIndex(ownerSym, backRef)
 	case fkIdxNonNull:
 		sc.widgets.AddFkIndex(ownerSym, backRef)
-	case fkIdxCascade:
+	case fkIdxCascade, fkSelfIdxCascade:
 		sc.widgets.AddFkIndexCascadeDelete(ownerSym, backRef)
 	case fkcNoneNullable, fkSelfNone, fkChildTarget:
 		sc.widgets.AddFkConstraint(ownerSym, true, boltz.CascadeNone)
@@ -744,6 +748,7 @@ func C04(tier string) int {
 	}
 	run(newFkScenario(fkSelfIdxNullable, nil, []string{"w1", "w1x", "w3"}, "plain ids"))
 	run(newFkScenario(fkSelfNone, nil, []string{"w1", "w1x", "w3"}, "plain ids"))
+	run(newFkScenario(fkSelfIdxCascade, nil, []string{"w1", "w1x", "w3"}, "plain ids"))
 	run(newFkScenario(fkChildTarget, nil, []string{"w1", "w1x", "w3"}, "plain ids"))
 	run(newFkScenario(fkIdxExtChildTarget, nil, []string{"w1", "w1x", "w3"}, "plain ids"))
 	selfCascade := newFkScenario(fkSelfCascade, nil, []string{"w1", "w1x", "w3"}, "plain ids")
